@@ -141,13 +141,42 @@ impl HavokValue {
     }
 }
 
+/// Every object of a tag file. The objects refer to each other through `HavokValue::Object`, in
+/// chains of any length and in cycles; when the pool is dropped it empties the objects one after
+/// the other, so that releasing them neither recurses along a chain of references nor leaks a
+/// cycle.
+#[derive(Default)]
+pub struct HavokObjectPool(Vec<Arc<RefCell<HavokObject>>>);
+
+impl HavokObjectPool {
+    pub fn push(&mut self, object: Arc<RefCell<HavokObject>>) {
+        self.0.push(object);
+    }
+
+    pub fn iter(&self) -> impl Iterator<Item = &Arc<RefCell<HavokObject>>> {
+        self.0.iter()
+    }
+}
+
+impl Drop for HavokObjectPool {
+    fn drop(&mut self) {
+        for object in &self.0 {
+            if let Ok(mut object) = object.try_borrow_mut() {
+                object.data.clear();
+            }
+        }
+    }
+}
+
 pub struct HavokRootObject {
     object: Arc<RefCell<HavokObject>>,
+    /// (keeps the object graph alive and releases it, see `HavokObjectPool`)
+    objects: HavokObjectPool,
 }
 
 impl HavokRootObject {
-    pub fn new(object: Arc<RefCell<HavokObject>>) -> Self {
-        Self { object }
+    pub fn new(object: Arc<RefCell<HavokObject>>, objects: HavokObjectPool) -> Self {
+        Self { object, objects }
     }
 
     /// The `variant` of the first named variant of that class; `None` when there is none or the
